@@ -1300,6 +1300,54 @@ def _default_intercepts():
     }
     for optype, f in _BINOPS.items():
         d[f] = _mk_binop_intercept(optype)
+    d.update(_numpy_intercepts())
+    return d
+
+
+def _numpy_intercepts():
+    """numpy entry points that would otherwise try to concretise a symbolic
+    integer.  Modelled: a symbolic int behaves like a Python int (weak scalar,
+    value-independent promotion under NEP 50); numpy scalar-type constructors
+    applied to it are the identity (assumption: no wrap-around / rounding)."""
+    import numpy as np
+
+    def desym(x):
+        if type(x) is SymInt:
+            return 0
+        if type(x) is SymBool:
+            return False
+        return x
+
+    def mk_desym(fn):
+        def h(interp, args, kwargs):
+            return fn(*[desym(a) for a in args],
+                      **{k: desym(v) for k, v in kwargs.items()})
+        return h
+
+    def mk_ctor(tp):
+        def h(interp, args, kwargs):
+            if len(args) == 1 and not kwargs and is_sym(args[0]):
+                return args[0]
+            return tp(*args, **kwargs)
+        return h
+
+    def isnan(interp, args, kwargs):
+        if len(args) == 1 and is_sym(args[0]):
+            return False
+        return np.isnan(*args, **kwargs)
+
+    def isscalar(interp, args, kwargs):
+        if is_sym(args[0]):
+            return True
+        return np.isscalar(*args, **kwargs)
+
+    d = {np.result_type: mk_desym(np.result_type),
+         np.promote_types: mk_desym(np.promote_types),
+         np.isnan: isnan, np.isscalar: isscalar}
+    for tp in (np.int8, np.int16, np.int32, np.int64, np.uint8, np.uint16,
+               np.uint32, np.uint64, np.intp, np.float32, np.float64,
+               np.complex64, np.complex128):
+        d[tp] = mk_ctor(tp)
     return d
 
 # }}}
